@@ -289,6 +289,11 @@ def run(ctx, eng):
                'SETTINGS handler: the server\'s view equals the client\'s '
                'settings only if that handler stores every setting of the '
                'frame, whatever its identifier and whichever side we are')
+    cm.include(ctx, eng, 'C11', {('FLOW.queue', '__iter__'),
+                                 ('FLOW.queue', '__getitem__')},
+               'the header and the preface carry what iterating '
+               'local_settings yields: every key that is set, an extension '
+               'identifier included, with the value in force')
     cm.include(ctx, eng, 'C11', {'OWN.ack-caller'},
                'the header and the preface are both filled from '
                'local_settings: they agree because nothing makes pending '
